@@ -739,7 +739,13 @@ def eval_e2e(ctx, exe, mexe, cases, tab, stats, report=True):
             viol(i, "embedding is missing or not N x target_dimension")
             continue
         if any(x is None for row in E[2] for x in row):
-            viol(i, "embedding contains NaN/inf (retained eigenvalues %s)" % top)
+            if c["solver"] == "randomized" and rank < d:
+                # same root cause as the throw (0 * (1/0) in the Gram-Schmidt loop): with a 1 x 1 small problem
+                # Eigen reports Success on a NaN matrix and the NaN reaches the embedding
+                viol(i, "randomized solver returns NaN on an input of rank %d < target_dimension %d" % (rank, d),
+                     sig=F36_SIG)
+            else:
+                viol(i, "embedding contains NaN/inf (retained eigenvalues %s)" % top)
             continue
         Yq = E[2]
         # canonical column order: ascending squared norm (the property does not fix the order)
